@@ -13,7 +13,10 @@ type DevAnswer struct {
 
 type DevPort struct {
 	Regs        map[uint16]DevAnswer
-	RawRegs     map[uint16][]byte // registers answered with these raw bytes instead of a well-formed Get response
+	RawRegs     map[uint16][]byte   // registers answered with these raw bytes instead of a well-formed Get response
+	Seq         map[uint16][][]byte // registers whose successive Gets are answered with these raw bytes, one entry per Get; afterwards Regs/RawRegs apply
+	PingPrefix  []byte              // bytes sent in front of the (otherwise normal) answer to a ping
+	IdPrefix    []byte              // bytes sent in front of the (otherwise normal) answer to the device-id query
 	Id          uint16
 	NoPing      bool              // silent at ping
 	NoId        bool              // silent at the device-id query
@@ -35,7 +38,7 @@ type DevPort struct {
 }
 
 func NewDevPort(id uint16) *DevPort {
-	return &DevPort{Regs: map[uint16]DevAnswer{}, Id: id, SilentAfter: -1}
+	return &DevPort{Regs: map[uint16]DevAnswer{}, Seq: map[uint16][][]byte{}, Id: id, SilentAfter: -1}
 }
 
 func (d *DevPort) Write(b []byte) (int, error) {
@@ -50,12 +53,14 @@ func (d *DevPort) Write(b []byte) (int, error) {
 		if d.BadPing != nil {
 			d.queue = append(d.queue, d.BadPing...)
 		} else if !d.NoPing {
+			d.queue = append(d.queue, d.PingPrefix...)
 			d.queue = append(d.queue, simFrame(5, []byte{0x16, 0x41})...)
 		}
 	case 4:
 		if d.BadId != nil {
 			d.queue = append(d.queue, d.BadId...)
 		} else if !d.NoId {
+			d.queue = append(d.queue, d.IdPrefix...)
 			d.queue = append(d.queue, simFrame(1, []byte{byte(d.Id), byte(d.Id >> 8)})...)
 		}
 	case 7:
@@ -65,7 +70,10 @@ func (d *DevPort) Write(b []byte) (int, error) {
 			if d.OnGet != nil {
 				d.OnGet(addr)
 			}
-			if a, ok := d.Regs[addr]; ok && (d.SilentAfter < 0 || d.answered < d.SilentAfter) {
+			if sq := d.Seq[addr]; len(sq) > 0 {
+				d.queue = append(d.queue, sq[0]...)
+				d.Seq[addr] = sq[1:]
+			} else if a, ok := d.Regs[addr]; ok && (d.SilentAfter < 0 || d.answered < d.SilentAfter) {
 				d.answered++
 				if d.AsyncEvery > 0 && d.answered%d.AsyncEvery == 0 {
 					d.queue = append(d.queue, simFrame(0xA, []byte{0x8D, 0xED, 0x00, byte(d.answered), 0x05})...)
